@@ -89,6 +89,32 @@ Theorem C10_scalar_mul : forall F k Rm x,
 Proof. exact scalar_mul_abel. Qed.
 Print Assumptions C10_scalar_mul.
 
+(* every scalar operator (`*`, `*=`, `num *`, `/`, `/=`; PiecewisePolynomial scales its
+   pieces too): k * object is the pair of k * f, for the whole object and for every
+   piece; division by a is k = 1/a (a <> 0); `/= a; *= a` is the identity *)
+Theorem C10_scalar_whole :
+  forall (r : list R) (Rm : R), ascending r -> (forall j, (j < length r)%nat -> 0 <= nth j r 0) ->
+  forall k ps i, List.Forall (piece_ok Rm) ps -> (i < length r)%nat ->
+  nth i (vscaleR k (pw_func r ps)) 0 = k * pw_fun ps (nth i r 0) /\
+  nth i (vscaleR k (pw_abel r ps)) 0 = Abel (fun t => k * pw_fun ps t) Rm (nth i r 0).
+Proof. exact scaled_whole. Qed.
+Print Assumptions C10_scalar_whole.
+
+Theorem C10_scalar_pieces :
+  forall (r : list R) (Rm : R), ascending r -> (forall j, (j < length r)%nat -> 0 <= nth j r 0) ->
+  forall k ps j i, List.Forall (piece_ok Rm) ps -> (j < length ps)%nat -> (i < length r)%nat ->
+  let p := nth j ps {| q_rmin := 0; q_rmax := 0; q_c := []; q_r0 := 0; q_s := 1; q_red := false |} in
+  let F := polyfun (q_rmin p) (q_rmax p) (q_c p) (q_r0 p) (q_s p) in
+  nth i (fst (nth j (scaled_pieces k r ps) ([], []))) 0 = k * F (nth i r 0) /\
+  nth i (snd (nth j (scaled_pieces k r ps) ([], []))) 0 = Abel (fun t => k * F t) Rm (nth i r 0).
+Proof. exact scaled_piece. Qed.
+Print Assumptions C10_scalar_pieces.
+
+Theorem C10_scalar_div : forall a l i, a <> 0 ->
+  nth i (vscaleR (1 / a) l) 0 = nth i l 0 / a /\ vscaleR a (vscaleR (1 / a) l) = l.
+Proof. intros; split; [apply vscale_div | apply vscale_roundtrip]; auto. Qed.
+Print Assumptions C10_scalar_div.
+
 (* the rational evaluation form run by the correspondence check is the model *)
 Theorem C10_abel_eval_sound : forall c sc x rmin rmax,
   0 <= Q2R x -> 0 <= Q2R rmin ->
